@@ -138,14 +138,39 @@ theorem format_preserves_run (o : L4.Opts) (l : L4.Lang) (f : L4.File) (b : ShVe
   · cases h1
 
 /-- The same from source text, with no hypothesis on the tree: if `src` parses (in the model
-    parser of syntax/) to a non-empty `f`, the formatted text of `f` parses to a tree that runs
-    to the same output and exit status.  Well-formedness and non-decreasing line numbers of `f`
-    come from C01's `parse_WF`. -/
+    parser of syntax/) to `f` — the empty file included — the formatted text of `f` parses to a
+    tree that runs to the same output and exit status.  Well-formedness and non-decreasing line
+    numbers of `f` come from C01's `parse_WF` (through `roundtrip_src`). -/
 theorem format_preserves_run_src (o : L4.Opts) (l : L4.Lang) (src : ShVerif.Bytes) (f : L4.File) (b : ShVerif.Bytes)
-    (hsrc : L4.parse l src = .ok f) (hne : f.stmts ≠ .nil) (hp : L4.printFile o f = .ok b) :
+    (hsrc : L4.parse l src = .ok f) (hp : L4.printFile o f = .ok b) :
     ∃ f', L4.parse l b = .ok f' ∧ ∀ fuel, runL4 fuel f' = runL4 fuel f := by
-  obtain ⟨hwf, hmono⟩ := ShVerif.Props.C01.parse_WF l src f hsrc
-  exact format_preserves_run o l f b hwf hmono hne hp
+  obtain ⟨f', h1, h2⟩ := ShVerif.Props.C01.roundtrip_src o l src f b hsrc hp
+  exact ⟨f', h1, fun fuel => by unfold runL4; rw [toL5_norm f f' h2]⟩
+
+/-- **Formatting source text preserves behaviour, with no side condition**: every F0 source that
+    parses, formatted with any option set that is not the refused one, yields text that parses and
+    runs (model of `interp.Runner`) to the same output and exit status. -/
+theorem format_preserves_run_src_total (o : L4.Opts) (hr : L4.refuse o = false) (l : L4.Lang)
+    (src : ShVerif.Bytes) (f : L4.File) (hsrc : L4.parse l src = .ok f) :
+    ∃ b f', L4.printFile o f = .ok b ∧ L4.parse l b = .ok f' ∧ ∀ fuel, runL4 fuel f' = runL4 fuel f := by
+  obtain ⟨b, f', hb, h1, h2⟩ := ShVerif.Props.C01.roundtrip_src_total o hr l src f hsrc
+  exact ⟨b, f', hb, h1, fun fuel => by unfold runL4; rw [toL5_norm f f' h2]⟩
+
+/-- …and formatting the formatted text again (e.g. Minify after a default format, in another
+    variant) still preserves it: the second input is itself parser output, so C01's `parse_WF`
+    applies to it. -/
+theorem format_twice_preserves_run_src (o₁ o₂ : L4.Opts) (l₁ l₂ : L4.Lang) (src : ShVerif.Bytes)
+    (f : L4.File) (b₁ b₂ : ShVerif.Bytes) (f₁ : L4.File)
+    (hsrc : L4.parse l₁ src = .ok f) (h1 : L4.printFile o₁ f = .ok b₁)
+    (hp1 : L4.parse l₂ b₁ = .ok f₁) (h2 : L4.printFile o₂ f₁ = .ok b₂) :
+    ∃ f₂, L4.parse l₂ b₂ = .ok f₂ ∧ ∀ fuel, runL4 fuel f₂ = runL4 fuel f := by
+  obtain ⟨f₁', hq, hr1⟩ := format_preserves_run_src o₁ l₂ src f b₁ (by
+    -- the first formatting is judged in variant l₂ as well: parsing F0 does not depend on the variant
+    exact (by cases l₁ <;> cases l₂ <;> exact hsrc)) h1
+  have : f₁' = f₁ := by rw [hp1] at hq; cases hq; rfl
+  subst this
+  obtain ⟨f₂, hq2, hr2⟩ := format_preserves_run_src o₂ l₂ b₁ f₁' b₂ hp1 h2
+  exact ⟨f₂, hq2, fun fuel => (hr2 fuel).trans (hr1 fuel)⟩
 
 /-- …and unless the option set is the refused one (Minify with SingleLine) there is such a text. -/
 theorem format_preserves_run_total (o : L4.Opts) (hr : L4.refuse o = false) (l : L4.Lang) (f : L4.File)
